@@ -373,7 +373,10 @@ class MibCopy(object):
         # the --mib-source library (used to resolve imports) itself holds a copy of the module, newer or older,
         # and one source file named exactly like the module is not a MIB at all
         for lib in ('old', 'new'):
-            for junk in ((0, 1) if (tier == 'thorough' or n == 2) else (0,)):
+            # junk: 1 not a MIB at all; 2-4 a MIB cut inside a MACRO / EXPORTS / CHOICE section; 5 a healthy module whose last
+            # line is a comment without a line end (visited first: the parser the script shares between files must not
+            # remember where the previous text stopped)
+            for junk in ((0, 1, 2, 3, 4, 5) if (tier == 'thorough' or n == 2) else (0, 2, 5)):
                 yield {'revs': block['revs'], 'pre': block['pre'], 'perm': list(range(n)), 'mode': 'files', 'lib': lib,
                        'junk': junk}
 
@@ -410,9 +413,16 @@ class MibCopy(object):
             if case.get('junk'):
                 jd = os.path.join(root, 'junk')
                 os.mkdir(jd)
-                fn = os.path.join(jd, 'ONE-MIB')
+                fn = os.path.join(jd, 'ONE-MIB' if case['junk'] != 5 else 'tail.mib')
+                cut = 'ONE-MIB DEFINITIONS ::= BEGIN\nIMPORTS enterprises FROM SNMPv2-SMI;\n'
                 with open(fn, 'w') as f:
-                    f.write('this is not a MIB module\n')
+                    f.write({1: 'this is not a MIB module\n',
+                             2: cut + 'OBJECT-TYPE MACRO ::=\nBEGIN\n    TYPE NOTATION ::= "x"\n',
+                             3: 'ONE-MIB DEFINITIONS ::= BEGIN\nEXPORTS a, b',
+                             4: cut + 'Addr ::= CHOICE { a INTEGER,',
+                             5: copy_text('TAIL-MIB', REVS['mid'], 'tail') + '-- the end'}[case['junk']])
+                if case['junk'] == 5:
+                    contents['TAIL-MIB'] = [(rev_key('mid'), open(fn).read())]
                 files.insert(0, fn)
             if case['pre'] is not None:
                 os.mkdir(dst)
@@ -436,8 +446,8 @@ class MibCopy(object):
             if case.get('dst'):
                 feat += '|dst=' + case['dst']
             if case.get('lib'):
-                feat += '|library-holds-%s-copy' % case['lib'] + ('|junk-source' if case.get('junk') else '')
-            if case.get('junk') and not re.search(r'failed: 1\b', stderr):
+                feat += '|library-holds-%s-copy' % case['lib'] + ('|junk-source-%d' % case['junk'] if case.get('junk') else '')
+            if case.get('junk') and case['junk'] != 5 and not re.search(r'failed: 1\b', stderr):
                 vs.append(('C20|mibcopy|unreadable-source-not-counted-failed|%s' % feat, 'argv %r\n%s' % (argv, stderr[-600:])))
             if code != 0:
                 vs.append(('C20|mibcopy|exit-%s|%s' % (code, feat), 'argv %r\n%s' % (argv, stderr[-600:])))
